@@ -141,3 +141,72 @@ impl SStream {
     }
     pub fn rekey(&mut self) { unsafe { ffi::crypto_secretstream_xchacha20poly1305_rekey(&mut self.0); } }
 }
+
+pub fn sign_seed_keypair(seed: &[u8; 32]) -> ([u8; 32], [u8; 64]) {
+    let (mut pk, mut sk) = ([0u8; 32], [0u8; 64]);
+    unsafe { ffi::crypto_sign_seed_keypair(pk.as_mut_ptr(), sk.as_mut_ptr(), seed.as_ptr()); }
+    (pk, sk)
+}
+pub fn sign_detached(m: &[u8], sk: &[u8; 64]) -> [u8; 64] {
+    let mut sig = [0u8; 64];
+    unsafe { ffi::crypto_sign_detached(sig.as_mut_ptr(), std::ptr::null_mut(), m.as_ptr(), m.len() as u64, sk.as_ptr()); }
+    sig
+}
+pub fn sign_verify_detached(sig: &[u8; 64], m: &[u8], pk: &[u8; 32]) -> bool {
+    unsafe { ffi::crypto_sign_verify_detached(sig.as_ptr(), m.as_ptr(), m.len() as u64, pk.as_ptr()) == 0 }
+}
+pub fn sign_open(sm: &[u8], pk: &[u8; 32]) -> Option<Vec<u8>> {
+    let mut m = vec![0u8; sm.len()];
+    let mut mlen: u64 = 0;
+    let r = unsafe { ffi::crypto_sign_open(m.as_mut_ptr(), &mut mlen, sm.as_ptr(), sm.len() as u64, pk.as_ptr()) };
+    if r == 0 { m.truncate(mlen as usize); Some(m) } else { None }
+}
+pub fn sign_ph(chunks: &[&[u8]], sk: &[u8; 64]) -> [u8; 64] {
+    let mut sig = [0u8; 64];
+    unsafe {
+        let mut st: ffi::crypto_sign_state = std::mem::zeroed();
+        ffi::crypto_sign_init(&mut st);
+        for c in chunks { ffi::crypto_sign_update(&mut st, c.as_ptr(), c.len() as u64); }
+        ffi::crypto_sign_final_create(&mut st, sig.as_mut_ptr(), std::ptr::null_mut(), sk.as_ptr());
+    }
+    sig
+}
+pub fn sign_ph_verify(chunks: &[&[u8]], sig: &[u8; 64], pk: &[u8; 32]) -> bool {
+    unsafe {
+        let mut st: ffi::crypto_sign_state = std::mem::zeroed();
+        ffi::crypto_sign_init(&mut st);
+        for c in chunks { ffi::crypto_sign_update(&mut st, c.as_ptr(), c.len() as u64); }
+        ffi::crypto_sign_final_verify(&mut st, sig.as_ptr(), pk.as_ptr()) == 0
+    }
+}
+pub fn pwhash_str(pw: &[u8], ops: u64, mem: usize) -> Option<String> {
+    let mut out = [0i8; 128];
+    let r = unsafe { ffi::crypto_pwhash_str(out.as_mut_ptr() as *mut _, pw.as_ptr() as *const _, pw.len() as u64, ops, mem) };
+    if r != 0 { return None; }
+    let bytes: Vec<u8> = out.iter().take_while(|c| **c != 0).map(|c| *c as u8).collect();
+    String::from_utf8(bytes).ok()
+}
+pub fn pwhash_str_alg(pw: &[u8], ops: u64, mem: usize, alg: i32) -> Option<String> {
+    let mut out = [0i8; 128];
+    let r = unsafe { ffi::crypto_pwhash_str_alg(out.as_mut_ptr() as *mut _, pw.as_ptr() as *const _, pw.len() as u64, ops, mem, alg) };
+    if r != 0 { return None; }
+    let bytes: Vec<u8> = out.iter().take_while(|c| **c != 0).map(|c| *c as u8).collect();
+    String::from_utf8(bytes).ok()
+}
+pub fn pwhash_str_verify(s: &str, pw: &[u8]) -> bool {
+    let mut buf = [0u8; 128];
+    if s.len() >= 128 { return false; }
+    buf[..s.len()].copy_from_slice(s.as_bytes());
+    unsafe { ffi::crypto_pwhash_str_verify(buf.as_ptr() as *const _, pw.as_ptr() as *const _, pw.len() as u64) == 0 }
+}
+pub fn pwhash_str_needs_rehash(s: &str, ops: u64, mem: usize) -> i32 {
+    let mut buf = [0u8; 128];
+    if s.len() >= 128 { return -1; }
+    buf[..s.len()].copy_from_slice(s.as_bytes());
+    unsafe { ffi::crypto_pwhash_str_needs_rehash(buf.as_ptr() as *const _, ops, mem) }
+}
+pub fn pwhash(outlen: usize, pw: &[u8], salt: &[u8; 16], ops: u64, mem: usize, alg: i32) -> Option<Vec<u8>> {
+    let mut out = vec![0u8; outlen];
+    let r = unsafe { ffi::crypto_pwhash(out.as_mut_ptr(), outlen as u64, pw.as_ptr() as *const _, pw.len() as u64, salt.as_ptr(), ops, mem, alg) };
+    if r == 0 { Some(out) } else { None }
+}
